@@ -376,3 +376,14 @@ Proof.
   split; [vm_compute; reflexivity|]. split; [vm_compute; reflexivity|]. split; [vm_compute; reflexivity|].
   split; [vm_compute; reflexivity|]. split; [vm_compute; reflexivity|]. split; vm_compute; reflexivity.
 Qed.
+
+(* one signature per distinct owning KEY: the calculator (and the mock witness set) count one vkey witness per distinct
+   owner ADDRESS; several addresses can share a payment key, so the really signed transaction carries v <= that many
+   vkey witnesses and is no larger: the fee bound of C13_finalise covers it *)
+Theorem fewer_signatures_smaller v v' boots : 1 <= v -> v <= v' -> wit_size v boots <= wit_size v' boots.
+Proof.
+  intros H1 H2. unfold wit_size. assert (v =? 0 = false) as -> by lia. assert (v' =? 0 = false) as -> by lia.
+  cbn [andb]. assert (0 <? v = true) as -> by lia. assert (0 <? v' = true) as -> by lia.
+  pose proof (struct_size_mono v v' H2). unfold get_wrapped_struct_size, get_fake_vkey_size.
+  destruct (0 <? lenN boots); nia.
+Qed.
